@@ -110,6 +110,10 @@ pub fn constants() -> Vec<(&'static str, u64)> {
         ),
         ("PREFIX_SEARCH_LEN", prefix_search_len() as u64),
         (
+            "MAX_BURST_LENGTH",
+            super::framing::verif::max_burst_length() as u64,
+        ),
+        (
             "MAX_MESSAGE_DURATION_SECS",
             super::SameReceiver::MAX_MESSAGE_DURATION_SECS,
         ),
